@@ -131,6 +131,24 @@ def format_multiline_strings(source: str, offset: int = 4) -> str:
     return formatted_source
 
 
+def enum_member_name(value: str) -> str:
+    """Name of the member which a generated enum class defines for a GraphQL value.
+
+    Keywords can't be used as names, and enum.Enum reserves `mro` and
+    `_sunder_` names: it refuses some of them and silently treats the others
+    (`_missing_`, `_order_`, `_ignore_`, ...) as its own hooks, not as members.
+    """
+    is_sunder = (
+        len(value) > 2
+        and value[0] == value[-1] == "_"
+        and value[1] != "_"
+        and value[-2] != "_"
+    )
+    if iskeyword(value) or value == "mro" or is_sunder:
+        return value + "_"
+    return value
+
+
 def process_name(
     name: str,
     convert_to_snake_case: bool,
